@@ -169,7 +169,8 @@ class RefEncoder:
 
 
 def _z(s):
-    return s.replace('+00:00', 'Z', 1)
+    # documented: a *trailing* +00:00 is written as Z
+    return s[:-6] + 'Z' if s.endswith('+00:00') else s
 
 
 def same_typed(a, b):
@@ -235,3 +236,108 @@ def mutable_ids(v, acc=None, seen=None):
 def jsonify(v):
     """what json.loads(json.dumps(v)) gives for a JSON-safe structure"""
     return json.loads(json.dumps(v))
+
+
+def first_diff(a, b, path='x'):
+    """where two values stop being same_typed (for failure messages)"""
+    if type(a) is not type(b):
+        return f'{path}: {type(a).__name__} {a!r:.80} vs {type(b).__name__} {b!r:.80}'
+    if dataclasses.is_dataclass(a) and not isinstance(a, type):
+        for f in dataclasses.fields(a):
+            if hasattr(a, f.name) and hasattr(b, f.name) and not same_typed(getattr(a, f.name), getattr(b, f.name)):
+                return first_diff(getattr(a, f.name), getattr(b, f.name), f'{path}.{f.name}')
+    if isinstance(a, dict):
+        for k in a:
+            if k not in b:
+                return f'{path}: key {k!r} missing'
+            if not same_typed(a[k], b[k]):
+                return first_diff(a[k], b[k], f'{path}[{k!r}]')
+        return f'{path}: keys {list(a)!r:.100} vs {list(b)!r:.100}'
+    if isinstance(a, (list, tuple, collections.deque)):
+        if len(a) != len(b):
+            return f'{path}: len {len(a)} vs {len(b)}'
+        for i, (x, y) in enumerate(zip(a, b)):
+            if not same_typed(x, y):
+                return first_diff(x, y, f'{path}[{i}]')
+    return f'{path}: {a!r:.100} vs {b!r:.100}'
+
+
+def diff_steps(a, b):
+    """structured path to the first position where a and b stop being same_typed"""
+    if type(a) is not type(b):
+        return []
+    if dataclasses.is_dataclass(a) and not isinstance(a, type):
+        for f in dataclasses.fields(a):
+            if hasattr(a, f.name) and hasattr(b, f.name) and not same_typed(getattr(a, f.name), getattr(b, f.name)):
+                return [('field', f.name)] + diff_steps(getattr(a, f.name), getattr(b, f.name))
+        return []
+    if isinstance(a, dict):
+        for k in a:
+            if k in b and not same_typed(a[k], b[k]):
+                return [('key', k)] + diff_steps(a[k], b[k])
+        return []
+    if isinstance(a, (list, tuple, collections.deque)):
+        if len(a) == len(b):
+            for i, (x, y) in enumerate(zip(a, b)):
+                if not same_typed(x, y):
+                    return [('index', i)] + diff_steps(x, y)
+    return []
+
+
+def union_on_path(ty, steps, value):
+    """the innermost Union node met when following `steps` from type `ty` (value = the original instance side)"""
+    last_union = None
+    t, v = ty, value
+    for step in steps + [None]:
+        # unwrap optional / union at this level
+        while t is not None and t['k'] in ('optional', 'union'):
+            if t['k'] == 'union':
+                last_union = t
+                cand = [m for m in t['a'] if _shape_ok(v, m)]
+                t = cand[0] if len(cand) == 1 else None
+            else:
+                t = t['a'][0]
+        if step is None or t is None:
+            break
+        kind, arg = step
+        k = t['k']
+        try:
+            if kind == 'field' and k == 'cls':
+                t = dict((n, ft) for n, ft in t['ftys'])[arg]
+                v = getattr(v, arg)
+            elif kind == 'key' and k in ('dict', 'defaultdict', 'ordereddict'):
+                t = t['a'][1]
+                v = v[arg]
+            elif kind == 'key' and k == 'typeddict':
+                t = {n: ft for n, ft, _r in t['fields']}[arg]
+                v = v[arg]
+            elif kind == 'index' and k in ('list', 'deque', 'vtuple', 'set', 'frozenset'):
+                t = t['a'][0]
+                v = list(v)[arg]
+            elif kind == 'index' and k == 'tuple':
+                t = t['a'][arg]
+                v = v[arg]
+            elif kind == 'index' and k == 'namedtuple':
+                t = t['fields'][arg][1]
+                v = v[arg]
+            else:
+                break
+        except Exception:
+            break
+    return last_union
+
+
+def _shape_ok(v, m):
+    k = m['k']
+    if k == 'none':
+        return v is None
+    if k in ('dict', 'defaultdict', 'ordereddict', 'typeddict'):
+        return isinstance(v, dict)
+    if k in ('list', 'set', 'frozenset', 'deque', 'vtuple', 'tuple', 'namedtuple'):
+        return isinstance(v, (list, set, frozenset, tuple, collections.deque))
+    if k == 'cls':
+        return dataclasses.is_dataclass(v) and type(v).__name__ == m['info']['name']
+    simple = {'str': str, 'int': int, 'float': float, 'bool': bool}
+    if k in simple:
+        return type(v) is simple[k]
+    return not isinstance(v, (dict, list, set, frozenset, tuple, collections.deque, str, int, float, bool)) and v is not None
